@@ -24,6 +24,12 @@ GROUPS = {
                      'deal/linter/_func.py': ['Func.line', 'Func.col', 'Func.has_self', 'Func.from_text', 'Func.from_ast', 'Func._get_funcs_ast', 'Func.from_astroid', 'Func._get_funcs_astroid',
                                               'Func.has_contract'],
                      'deal/linter/_extractors/contracts.py': ['get_contracts', '_get_contracts', '_resolve_inherit']},
+    'trace': {'deal/_trace.py': ['trace'], 'deal/_cli/_test.py': ['sys_path', 'fast_iterator', 'run_cases', 'TestCommand.run_tests'],
+              'deal/_mem_test.py': ['MemoryTracker.__enter__', 'MemoryTracker.__exit__'], 'deal/_cli/_memtest.py': ['run_cases', 'MemtestCommand.run_tests']},
+    'decoratecli': {'deal/_cli/_decorate.py': ['DecorateCommand.__call__']},
+    'lintglue': {'deal/linter/_extractors/returns.py': ['handle_return', 'handle_yield'],
+                 'deal/linter/_extractors/definitions.py': ['get_definitions', '_extract_defs_ast', '_extract_defs_astroid'],
+                 'deal/linter/_extractors/common.py': ['get_name', 'get_full_name', 'infer', 'get_stub', '_get_module']},
     'lintrules': {'deal/linter/_rules.py': ['register', 'CheckImports.__call__', 'CheckEnsureArgs.__call__', 'CheckEnsureArgs._check', 'CheckReturns.__call__', 'CheckExamples.__call__', 'CheckAsserts.__call__'],
                   'deal/linter/_checker.py': ['Checker.__init__', 'Checker.from_path']},
 }
